@@ -124,6 +124,11 @@ pub fn check_operation_keys(
 ) -> Result<(), DriverError> {
     stats.selection_sets += 1;
     let nodes = normalization.as_array().cloned().unwrap_or_default();
+    // an empty selection map is printed as `__typename` in the operation (query_text.rs) and as no
+    // node at all in the normalization AST: nothing to compare at this level
+    if nodes.is_empty() && matches!(selection_set.items.as_slice(), [Selection::Field(f)] if f.name == "__typename" && f.alias.is_none()) {
+        return Ok(());
+    }
     if nodes.len() != selection_set.items.len() {
         stats.shape_mismatch.get_or_insert(format!("{path}: {} selections in the operation, {} normalization nodes", selection_set.items.len(), nodes.len()));
         return Ok(());
